@@ -301,6 +301,17 @@ theorem c09_ring_bounded {s : QState} (hr : Reachable s) (hcap : 0 < s.cap) : s.
 theorem c09_ring_is_newest {s : QState} (hr : Reachable s) : s.ring <:+ s.pushOrder :=
   (conserve_reachable hr).suffix
 
+/-- **Trace specification (T-trace).** The executable predicate the driver evaluates on histories of
+real multi-threaded runs holds of every reachable state of the model: with overflow, each producer's
+delivered entries are a subsequence of that producer's pushes, and only pushed entries are delivered. -/
+theorem c09_spec_accepts {s : QState} (hr : Reachable s) (n : Nat) (hn : ∀ e ∈ s.pushOrder, e.1 < n) (final : Bool) :
+    Spec.acceptOrder n s.pushOrder (delivered s.log) true final = true := by
+  have hsub := (c09_order_with_overflow hr).2.1
+  simp only [Spec.acceptOrder, Bool.and_eq_true, List.all_eq_true, if_true]
+  refine ⟨fun p _ => ?_, fun e he => by simpa using hn e (hsub.subset he)⟩
+  simp only [Spec.producerSublist, Spec.ofProducer, List.isSublist_iff_sublist]
+  exact hsub.filter _
+
 /-! ## Non-vacuity: a concrete run with a stalled writer, capacity 2, three producers -/
 
 def nvClock : Clock := ⟨false, false, false, false⟩
@@ -335,3 +346,4 @@ end Queue
 #print axioms Queue.c09_counter
 #print axioms Queue.c09_ring_bounded
 #print axioms Queue.c09_ring_is_newest
+#print axioms Queue.c09_spec_accepts
